@@ -945,16 +945,18 @@ theorem allConsistent_map_snd {cs : List (Key × Node)} (h : allConsistent cs = 
   obtain ⟨x, hx, rfl⟩ := List.mem_map.1 hv
   exact ((consistentList_iff none cs).1 h x hx).2
 
-theorem newPlainList_cons {vals : List Node} (h : ∀ v, v ∈ vals → FlagsConsistent v = true) :
-    FlagsConsistent (newPlainList vals) = true := by
-  simp only [newPlainList, FlagsConsistent]
+theorem newPlainList_cons (f : Flags) {vals : List Node} (h : ∀ v, v ∈ vals → FlagsConsistent v = true) :
+    FlagsConsistent (newPlainList f vals) = true := by
+  simp only [newPlainList]
+  apply propagate_cons
+  simp only [ConsistentBelow, allConsistent]
   rw [consistentList_iff]
   intro kv hm
   have hm2 := c19_mem_renumFrom hm
   obtain ⟨x, hx, e⟩ := List.mem_map.1 hm2
   rw [← e]
   have hi := inheritInto_cons none (childKw freshFlags .list) (h x hx)
-  exact ⟨hi.2, hi.1⟩
+  exact ⟨fun kw' e' => (by cases e'), hi.1⟩
 
 theorem extendList_cons (f : Flags) (k : CompKind) : ∀ (vals : List Node) (cs : List (Key × Node)),
     (∀ v, v ∈ vals → FlagsConsistent v = true) → consistentList (childKw f k) cs = true →
@@ -1117,7 +1119,7 @@ theorem premergeF_cons : ∀ (fuel : Nat), PMCons (premergeF fuel)
         split at h
         · simp only [Except.ok.injEq, Prod.mk.injEq] at h
           obtain ⟨rfl, rfl, rfl⟩ := h
-          exact ⟨newPlainList_cons hvals, (fun e => by cases e), intoCons_none⟩
+          exact ⟨newPlainList_cons _ hvals, (fun e => by cases e), intoCons_none⟩
         · rename_i root
           split at h
           · cases h
@@ -1137,7 +1139,7 @@ theorem premergeF_cons : ∀ (fuel : Nat), PMCons (premergeF fuel)
         split at h
         · simp only [Except.ok.injEq, Prod.mk.injEq] at h
           obtain ⟨rfl, rfl, rfl⟩ := h
-          exact ⟨newPlainList_cons hvals, (fun e => by cases e), intoCons_none⟩
+          exact ⟨newPlainList_cons _ hvals, (fun e => by cases e), intoCons_none⟩
         · rename_i root
           split at h
           · rename_i tf tk tcs hg
@@ -1154,10 +1156,10 @@ theorem premergeF_cons : ∀ (fuel : Nat), PMCons (premergeF fuel)
                 exact extendList_cons tf tk _ tcs hvals ht
             · simp only [Except.ok.injEq, Prod.mk.injEq] at h
               obtain ⟨rfl, rfl, rfl⟩ := h
-              exact ⟨newPlainList_cons hvals, (fun e => by cases e), hi⟩
+              exact ⟨newPlainList_cons _ hvals, (fun e => by cases e), hi⟩
           · simp only [Except.ok.injEq, Prod.mk.injEq] at h
             obtain ⟨rfl, rfl, rfl⟩ := h
-            exact ⟨newPlainList_cons hvals, (fun e => by cases e), hi⟩
+            exact ⟨newPlainList_cons _ hvals, (fun e => by cases e), hi⟩
       | stream =>
         simp only [premergeF] at h
         split at h
